@@ -37,11 +37,12 @@ def decode(case, v):
 
 def run_impl(case):
     from pywhy_graphs.networkx.algorithms.causal.mixed_edge_moral import mixed_edge_moral_graph
-    M = gr.to_mixed(case["g"])
+    M, lab, inv = gr.to_mixed(case["g"], case)
     before = gr.snapshot(M)
     R = mixed_edge_moral_graph(M)
     after = gr.snapshot(M)
-    out = {"nodes": sorted(R.nodes), "edges": sorted([min(a, b), max(a, b)] for a, b in R.edges())}
+    out = {"nodes": sorted(inv(v) for v in R.nodes),
+           "edges": sorted(sorted((inv(a), inv(b))) for a, b in R.edges())}
     if before != after:
         out["mutated"] = True
     return out
